@@ -86,14 +86,17 @@ def run(tier, seed):
     if not chk.cov["selftest"]["ok"]:
         chk.selftest_failed("corrupted frames were not rejected")
     with open(first) as f:
-        next(f)
-        e = json.loads(next(f))
-        chk.sample({"writes": e["writes"], "reported": e["reported"], "rows_0_3": e["rows"][:3]})
+        for line in f:
+            e = json.loads(line)
+            if e["ev"] == "bframe":
+                chk.sample({"writes": e["writes"], "reported": e["reported"], "rows_0_3": e["rows"][:3]})
+                break
     chk.cov["traces_validated_against_impl"] = frames
     chk.cov["rule"] = (f"{shards} shards x {4 if quick else 8} machines x {60 if quick else 400} frames; per frame a plan of OUTs to even ports (8 kinds: "
                        "none, one, several per line, last T-states of the frame, around the first visible pixel, in horizontal retrace, after the "
                        "last visible line, up to 10 at random) through any even port (half of them xxFE), some frames starting from a freshly loaded SNA with its own "
-                       "border, a sixth of the frames loading an SNA or SZX in mid-frame after the writes; both machines")
+                       "border, a sixth of the frames loading an SNA or SZX in mid-frame after the writes; the reported colour after SZX loads whose chFe byte "
+                       "is anything (it is the stored border); both machines")
     chk.assumptions += ["the write of OUT (C),A takes effect inside its I/O cycle (T-states 7..12 of the instruction); tolerance 8 T (16 pixels) on either side",
                         "pixels inside the picture rectangle of the border buffer are not judged", "judging starts after the first ULA write"]
     return chk.finish()
